@@ -116,9 +116,16 @@ def execute(case, extra_monitors=(), exc_allow=(), replay=None, phases=(),
 def _auto_resume(w):
     """If a workflow paused itself (pause command / pause-before), resume."""
     root = w.root()
-    if root is None or root['state'] != 'PAUSED':
+    if root is not None and root['state'] == 'PAUSED':
+        w.op_resume(root['id'])
+        return True
+    # a sub-workflow that paused itself while the executions above it went
+    # on (or ended): the operator resumes it directly
+    paused = sorted((x for x in w.rec.rows['wf'].values()
+                     if x['state'] == 'PAUSED'), key=lambda x: x['id'])
+    if not paused:
         return False
-    w.op_resume(root['id'])
+    w.op_resume(paused[0]['id'])
     return True
 
 
